@@ -13,9 +13,9 @@ res=""
 if git apply $SRC/patch.diff; then res="$res apply=ok"; else res="$res apply=FAIL"; fi
 if go build ./... && go test -vet=off -count=1 -timeout 25m ./... >/tmp/sc.$ID.suite.log 2>&1; then res="$res suite_with_patch=pass"; else res="$res suite_with_patch=FAIL"; fi
 cp $SRC/demo_test.go $WT/$PKG/zz_demo_test.go
-if go test -vet=off -count=1 -run "$PAT" ./$PKG >/tmp/sc.$ID.demo1.log 2>&1; then res="$res demo_with_patch=PASS(bad)"; else res="$res demo_with_patch=fail(ok)"; fi
+if go test $EXTRA -vet=off -count=1 -run "$PAT" ./$PKG >/tmp/sc.$ID.demo1.log 2>&1; then res="$res demo_with_patch=PASS(bad)"; else res="$res demo_with_patch=fail(ok)"; fi
 git apply -R $SRC/patch.diff
-if go test -vet=off -count=1 -run "$PAT" ./$PKG >/tmp/sc.$ID.demo2.log 2>&1; then res="$res demo_without_patch=pass(ok)"; else res="$res demo_without_patch=FAIL(bad)"; fi
+if go test $EXTRA -vet=off -count=1 -run "$PAT" ./$PKG >/tmp/sc.$ID.demo2.log 2>&1; then res="$res demo_without_patch=pass(ok)"; else res="$res demo_without_patch=FAIL(bad)"; fi
 cd /
 git -C /repo worktree remove --force $WT
 echo "$ID:$res"
